@@ -282,6 +282,61 @@ func runC38(rc *RC) {
 			}
 			continue
 		}
+		if len(kept) > 0 && rc.Pct(12) {
+			// Burst on one path value: two holders (the value and a clone of
+			// it) grow the same point list in turn, the value going back to
+			// the world in between. List-valued tags are the one place where
+			// holders share a backing array, so growth is where isolation
+			// could break.
+			var paths []*keptValue
+			for _, kv := range kept {
+				if kv.inWorld && kv.f.FeatureID().Type == b6.FeatureTypePath {
+					paths = append(paths, kv)
+				}
+			}
+			if len(paths) > 0 {
+				kv := paths[rc.Draw(len(paths))]
+				extend := func(f ingest.Feature, pt int) {
+					n := 0
+					if p, ok := f.(b6.PhysicalFeature); ok {
+						n = p.GeometryLen()
+					}
+					f.ModifyOrAddTagAt(b6.Tag{Key: b6.PathTag, Value: b6.NewFeatureIDExpression(pointID(pt))}, n)
+				}
+				ok := true
+				rounds := rc.Range(1, 3)
+				rc.Case("burst", kv.label, rounds)
+				for r := 0; r < rounds && ok; r++ {
+					rc.Guard(name+"/panic", func() {
+						extend(kv.f, rc.Draw(maxPoints))
+						if err := w.AddFeature(kv.f); err != nil {
+							ok = false
+							return
+						}
+						clone := kv.f.Clone()
+						extend(kv.f, rc.Draw(maxPoints))
+						if err := w.AddFeature(kv.f); err != nil {
+							ok = false
+							return
+						}
+						before := Observe(w, ids, full)
+						extend(clone, maxPoints+1) // a point that exists nowhere: visible if it leaks
+						after := Observe(w, ids, full)
+						rc.Fired("late-caller-mutation")
+						mutations++
+						kindsApplied["burst"] = true
+						if d := before.Diff(after, 1); len(d) > 0 {
+							rc.Fail(name+"/world-changed-by-caller:"+section(d[0]), "the caller grew a clone of %s (which it had grown and handed to the world again meanwhile) and the world now answers differently:\n%s", kv.label, before.DiffString(after, "before", "after "))
+						}
+					})
+					if rc.Failed() {
+						return
+					}
+				}
+				rc.Notef("#%d burst: %s grown and re-added, its clone grown, %d round(s), completed=%v", i, kv.label, rounds, ok)
+				continue
+			}
+		}
 		if len(kept) > 0 && rc.Pct(20) {
 			// the caller hands one of its (possibly edited) values to the world
 			// again: an ordinary workflow; the world may refuse it
